@@ -1,7 +1,7 @@
 (* C04 — OTAA join is authenticated and both sides derive the same session. Statements only. *)
 From Coq Require Import String.
 From Lospan Require Import Base.Bytes Base.Outcome Model.FrameTypes Model.Crypto Gen.Consts Model.Frame Model.Join Model.Store Model.Server
-  Spec.RefDevice Proof.LocalProof Proof.JoinProof.
+  Spec.RefDevice Proof.LocalProof Proof.JoinProof Proof.JoinDeviceProof.
 
 (* join_guard (Proof/JoinProof.v): the MIC over MHDR|AppEUI|DevEUI|DevNonce verifies under the
    named device's AppKey, the AppEUI is the device's, the DevNonce is unused (or the check is
@@ -80,7 +80,22 @@ Theorem C04_forged_joins_alongside_a_genuine_one :
 Proof. exact forged_joins_alongside_a_genuine_one. Qed.
 
 
+(* The library's device side of the join-accept (PHYPayload.DecodeJoinAccept, Model/Join.v decode_join_accept): for every cipher
+   with 16-octet blocks, every key and every 17-octet message typed join-accept, it accepts exactly what a conformant device
+   (Spec/RefDevice.v) accepts - and then obtains the same device address - and rejects the rest as ErrInvalidMIC. *)
+Theorem C04_lib_join_accept :
+  forall (E : list N -> list N -> list N),
+    (forall k b, length (E k b) = 16%nat /\ bytes_ok (E k b) = true) ->
+    forall appkey dn2 b0 enc, length enc = 16%nat -> (b0 / 32 = 1)%N ->
+    match decode_join_accept E appkey (b0 :: enc) with
+    | Ok j => exists nk ak, ref_on_join_accept E appkey dn2 (b0 :: enc) = Some (devaddr_u32 (ja_devaddr j), nk, ak)
+    | Err e => e = ErrInvalidMIC /\ ref_on_join_accept E appkey dn2 (b0 :: enc) = None
+    | Panic => False
+    end.
+Proof. exact library_device_accepts_what_the_reference_device_accepts. Qed.
+
 Print Assumptions C04_forged_no_effect.
+Print Assumptions C04_lib_join_accept.
 Print Assumptions C04_honoured.
 Print Assumptions C04_session_agrees.
 Print Assumptions C04_lib_join_request.
